@@ -68,8 +68,9 @@ def _stem_job(args):
             plans.append(('ema-matype', var['ema-matype'], 'close'))
         if indreg.has(f, 'source_type'):
             plans.append(('default', var['default'], 'hl2'))
+            plans.append(('default', var['default'], 'volume'))      # the only source that can be exactly zero
             if not quick:
-                plans += [('default', var['default'], s) for s in ('high', 'volume', 'ohlc4')]
+                plans += [('default', var['default'], s) for s in ('high', 'ohlc4')]
         ok_any = False
         for vname, kw, src in plans:
             kw = dict(kw)
